@@ -175,6 +175,12 @@ DEF_FN(repeat, BITS) DEF_FN(mirrorClamp, BITS) DEF_FN(mirrorRepeat, ULPS)
 DEF_FN_PRE(iround, BITS, template <class A> static bool pre(A x) { return x >= 0 && x < (A)2147483000.0; }) DEF_FN_PRE(uround, BITS, template <class A> static bool pre(A x) { return x >= 0 && x < (A)4294967000.0; })
 DEF_FN(pow, BITS) DEF_FN(min, BITS) DEF_FN(max, BITS) DEF_FN(step, BITS) /* std::fmin(+0,-0) may return either zero; signalling NaN operands are outside the domain (platform minNum semantics) */
 DEF_FN_PRE(fmin, VALUE, template <class A> static bool pre(A a, A b) { return !is_snan(a) && !is_snan(b); }) DEF_FN_PRE(fmax, VALUE, template <class A> static bool pre(A a, A b) { return !is_snan(a) && !is_snan(b); }) DEF_FN(ldexp, BITS)
+// 3-operand forms (ext/scalar_common + ext/vector_common, gtx/extended_min_max): same functions, three arguments
+// (with both ext/scalar_common.hpp and gtx/extended_min_max.hpp included the scalar 3-operand call is ambiguous, so the scalar side is the nested 2-operand form it is defined as)
+#define DEF_FN3(ID, FN, CMPV, PRE) struct F_##ID { template <class... A> static double mag(A...) { return 0; } static const char* name() { return #FN "(3 operands)"; } enum { CMP = CMPV }; \
+  template <glm::length_t L, class T, glm::qualifier Q> static glm::vec<L, T, Q> f(glm::vec<L, T, Q> a, glm::vec<L, T, Q> b, glm::vec<L, T, Q> c) { return glm::FN(a, b, c); } \
+  template <class T, class = typename std::enable_if<std::is_arithmetic<T>::value>::type> static T f(T a, T b, T c) { return glm::FN(glm::FN(a, b), c); } template <class A> static bool pre(A a, A b, A c) { return PRE; } };
+DEF_FN3(min3, min, BITS, true) DEF_FN3(max3, max, BITS, true) DEF_FN3(fmin3, fmin, VALUE, (!is_snan(a) && !is_snan(b) && !is_snan(c))) DEF_FN3(fmax3, fmax, VALUE, (!is_snan(a) && !is_snan(b) && !is_snan(c)))
 DEF_FN_PRE(mod, ULPS, template <class A> static bool pre(A x, A y) { return x - x == 0 && y - y == 0 && y != 0; } template <class A> static double mag(A x, A y) { return 2 * std::fabs((double)x) + std::fabs((double)y); })
 struct F_atan2 { template <class... A> static double mag(A...) { return 0; } static const char* name() { return "atan(y,x)"; } enum { CMP = BITS }; template <class A, class B> static auto f(A a, B b) -> decltype(glm::atan(a, b)) { return glm::atan(a, b); } template <class... A> static bool pre(A...) { return true; } };
 DEF_FN_PRE(clamp, BITS, template <class A> static bool pre(A, A lo, A hi) { return !(lo > hi); }) DEF_FN_PRE(fclamp, VALUE, template <class A> static bool pre(A x, A lo, A hi) { return !(lo > hi) && !is_snan(x) && !is_snan(lo) && !is_snan(hi); })
@@ -294,6 +300,7 @@ template <typename T> static void reg_float_nary(Engine& E, const char* tn) {
   R2<F_lessThan, T, T, 0>(E, tn); R2<F_lessThanEqual, T, T, 0>(E, tn); R2<F_greaterThan, T, T, 0>(E, tn); R2<F_greaterThanEqual, T, T, 0>(E, tn); R2<F_equal, T, T, 0>(E, tn); R2<F_notEqual, T, T, 0>(E, tn);
 }
 template <typename T> static void reg_float_ternary(Engine& E, const char* tn) {
+  R3<F_min3, T, T, 0>(E, tn); R3<F_max3, T, T, 0>(E, tn); R3<F_fmin3, T, T, 0>(E, tn); R3<F_fmax3, T, T, 0>(E, tn);
   R3<F_clamp, T, T, 1>(E, tn); R3<F_fclamp, T, T, 1>(E, tn); R3<F_mix, T, T, 2>(E, tn); R3<F_smoothstep, T, T, 4>(E, tn); R3<F_fma, T, T, 0>(E, tn); R3<F_equalEps, T, T, 2>(E, tn); R3<F_notEqualEps, T, T, 2>(E, tn);
   { Op& op = E.add(std::string("mix(x,y,bool) <") + tn + ">", op_t3<F_mix, T, bool, 2>); op.quick = {product("VALUES^2 x {false,true}", {D1<T>(), D1<T>(), D1<bool>()})}; }
   { Op& op = E.add(std::string("abs/mix/equal/notEqual on all 9 matrix shapes <") + tn + ">", op_matrix<T>); Domain d = range("VALUES/3", 0, n3<T>() / 3, false); op.quick = {product("sub-lattice^3", {d, d, d})}; }
@@ -301,7 +308,7 @@ template <typename T> static void reg_float_ternary(Engine& E, const char* tn) {
 template <typename T> static void reg_float_ops(Engine& E, const char* tn) { R2<O_add, T, T, 7>(E, tn); R2<O_sub, T, T, 7>(E, tn); R2<O_mul, T, T, 7>(E, tn); R2<O_div, T, T, 7>(E, tn); Rmisc<T>(E, tn); }
 template <typename T> static void reg_int(Engine& E, const char* tn) {
   R2<O_add, T, T, 7>(E, tn); R2<O_sub, T, T, 7>(E, tn); R2<O_mul, T, T, 7>(E, tn); R2<O_div, T, T, 7>(E, tn); R2<O_mod, T, T, 7>(E, tn); R2<O_and, T, T, 7>(E, tn); R2<O_or, T, T, 7>(E, tn); R2<O_xor, T, T, 7>(E, tn); R2<O_shl, T, T, 7>(E, tn); R2<O_shr, T, T, 7>(E, tn); Rmisc<T>(E, tn);
-  R2<F_min, T, T, 1>(E, tn); R2<F_max, T, T, 1>(E, tn); R3<F_clamp, T, T, 1>(E, tn);
+  R2<F_min, T, T, 1>(E, tn); R2<F_max, T, T, 1>(E, tn); R3<F_clamp, T, T, 1>(E, tn); R3<F_min3, T, T, 0>(E, tn); R3<F_max3, T, T, 0>(E, tn);
   R2<F_lessThan, T, T, 0>(E, tn); R2<F_lessThanEqual, T, T, 0>(E, tn); R2<F_greaterThan, T, T, 0>(E, tn); R2<F_greaterThanEqual, T, T, 0>(E, tn); R2<F_equal, T, T, 0>(E, tn); R2<F_notEqual, T, T, 0>(E, tn);
   R1<F_bitCount, T>(E, tn); R1<F_findLSB, T>(E, tn); R1<F_findMSB, T>(E, tn); R1<F_bitfieldReverse, T>(E, tn); R1<F_isPowerOfTwo, T>(E, tn); R1<F_nextPowerOfTwo, T>(E, tn); R1<F_prevPowerOfTwo, T>(E, tn);
   R2<F_isMultiple, T, T, 1>(E, tn); R2<F_nextMultiple, T, T, 1>(E, tn); R2<F_prevMultiple, T, T, 1>(E, tn);
